@@ -736,6 +736,13 @@ def judge_sexa(ctx, kind, xs, model=True):
             if msp != mp:
                 ctx.fail('corr', case, f"Lean parser model: {mp!r} for {s!r} but {msp!r} for a padded spelling of it",
                          dict(site=site, what='parse-model-spelling'))
+            # the property does not constrain the sign character of an all-zero string ('+00:00:00.00' and
+            # '-00:00:00.00' both parse to 0 and both are within half a unit of the input): compared up to that freedom;
+            # the theorems (dms_string_roundtrip, dms_half_unit) hold for either sign
+            if kind == 'dms' and ms[1:] == '00:00:00.00' and s[1:] == ms[1:] and s[:1] in '+-':
+                if s != ms:
+                    ctx.count('dms:all-zero string, sign differs from the model (allowed)')
+                ms = s
             if ms != s:
                 ctx.fail('corr', case, f"{site}({case['x']!r}) = {s!r} but the integer model prints {ms!r} ({line})",
                          dict(site=site, what='model'))
